@@ -140,33 +140,21 @@ theorem swap_live (st : MState) : ∃ c s, st.swapSegment.cur = some c ∧ st.sw
 
 /-! ### reopenClean -/
 
-/-- What a clean reopen does to one segment: the meta file of an empty segment is not read. -/
-def unfullEmpty (s : MSeg) : MSeg := if s.data.isEmpty then { s with full := false } else s
-
-@[simp] theorem unfullEmpty_id (s : MSeg) : (unfullEmpty s).id = s.id := by unfold unfullEmpty; split <;> rfl
-@[simp] theorem unfullEmpty_seq (s : MSeg) : (unfullEmpty s).seq = s.seq := by unfold unfullEmpty; split <;> rfl
-@[simp] theorem unfullEmpty_data (s : MSeg) : (unfullEmpty s).data = s.data := by unfold unfullEmpty; split <;> rfl
-@[simp] theorem unfullEmpty_idem (s : MSeg) : unfullEmpty (unfullEmpty s) = unfullEmpty s := by
-  unfold unfullEmpty; split <;> simp_all
-
-/-- The state `reopenClean` hands to `swapSegment`. -/
+/-- The state `reopenClean` hands to `swapSegment`: the segments are untouched (since fix F13 an empty
+segment keeps its `Full` flag as well), only `cur` and `maxSeq` are recomputed. -/
 def reopenPre (st : MState) : MState :=
-  { st with segs := st.segs.map unfullEmpty,
-            maxSeq := (st.segs.map unfullEmpty).foldl (fun m s => max m s.seq) 0, cur := none }
+  { st with maxSeq := st.segs.foldl (fun m s => max m s.seq) 0, cur := none }
 
 theorem reopenClean_eq (st : MState) : st.reopenClean = st.reopenPre.swapSegment := rfl
 
-theorem reopenPre_seg? (st : MState) (id : Nat) : st.reopenPre.seg? id = (st.seg? id).map unfullEmpty := by
-  simp only [seg?, reopenPre, List.find?_map]
-  congr 1
-  apply find?_congr'
-  intro x _
-  simp
+@[simp] theorem reopenPre_segs (st : MState) : st.reopenPre.segs = st.segs := rfl
+
+theorem reopenPre_seg? (st : MState) (id : Nat) : st.reopenPre.seg? id = st.seg? id := rfl
 
 theorem reopenClean_seg?_old (st : MState) (id : Nat) (h : (st.seg? id).isSome) :
-    st.reopenClean.seg? id = (st.seg? id).map unfullEmpty := by
+    st.reopenClean.seg? id = st.seg? id := by
   rw [reopenClean_eq, swap_seg?_old, reopenPre_seg?]
-  rw [reopenPre_seg?]; simpa using h
+  rw [reopenPre_seg?]; exact h
 
 /-! ### reads -/
 
@@ -181,7 +169,6 @@ theorem reopenClean_readAt (st : MState) (id off len : Nat) (h : (st.seg? id).is
     st.reopenClean.readAt id off len = st.readAt id off len := by
   apply readAt_congr
   rw [reopenClean_seg?_old st id h]
-  cases st.seg? id <;> simp
 
 theorem mem_slots_of_chain (idx : Index) (i : Nat) (sl : Slot) (h : sl ∈ (idx.chain i).flatten) : sl ∈ idx.slots := by
   by_cases hi : i < idx.chains.length
@@ -237,39 +224,88 @@ theorem reopenClean_reads (st : MState) (hidx : st.NoDangling) (k : Bytes) :
 /-! ### idempotence -/
 
 theorem reopenClean_of_find (st : MState) (s0 : MSeg)
-    (hf : (st.segs.map unfullEmpty).find? (fun s => !s.full) = some s0) :
-    st.reopenClean = { st with segs := st.segs.map unfullEmpty,
-                               maxSeq := (st.segs.map unfullEmpty).foldl (fun m s => max m s.seq) 0,
+    (hf : st.segs.find? (fun s => !s.full) = some s0) :
+    st.reopenClean = { st with maxSeq := st.segs.foldl (fun m s => max m s.seq) 0,
                                cur := some s0.id } := by
   rw [reopenClean_eq]
   unfold swapSegment
-  have : st.reopenPre.segs = st.segs.map unfullEmpty := rfl
+  have : st.reopenPre.segs = st.segs := rfl
   rw [this, hf]
   rfl
 
-theorem reopenClean_idem (st : MState) (h : ∃ s ∈ st.segs, s.full = false ∧ s.data ≠ []) :
+/-- A clean reopen is idempotent as soon as some segment is writable (no longer only a non-empty one:
+the segments are not changed by the reopen). -/
+theorem reopenClean_idem (st : MState) (h : ∃ s ∈ st.segs, s.full = false) :
     st.reopenClean.reopenClean = st.reopenClean := by
-  obtain ⟨s, hs, hfull, hdata⟩ := h
-  have hsome : ((st.segs.map unfullEmpty).find? (fun s => !s.full)).isSome := by
+  obtain ⟨s, hs, hfull⟩ := h
+  have hsome : (st.segs.find? (fun s => !s.full)).isSome := by
     rw [List.find?_isSome]
-    refine ⟨unfullEmpty s, List.mem_map_of_mem hs, ?_⟩
-    have : unfullEmpty s = s := by
-      unfold unfullEmpty; cases hd : s.data with
-      | nil => exact absurd hd hdata
-      | cons a b => simp
-    rw [this, hfull]; rfl
+    exact ⟨s, hs, by rw [hfull]; rfl⟩
   obtain ⟨s0, hs0⟩ := Option.isSome_iff_exists.mp hsome
   have h1 := reopenClean_of_find st s0 hs0
-  have hmm : (st.segs.map unfullEmpty).map unfullEmpty = st.segs.map unfullEmpty := by
-    rw [List.map_map]; congr 1; funext x; simp
   rw [h1]
-  have h2 := reopenClean_of_find
-    { st with segs := st.segs.map unfullEmpty,
-              maxSeq := (st.segs.map unfullEmpty).foldl (fun m s => max m s.seq) 0,
-              cur := some s0.id } s0 (by dsimp only; rw [hmm]; exact hs0)
-  rw [h2]
-  dsimp only
-  rw [hmm]
+  exact reopenClean_of_find
+    { st with maxSeq := st.segs.foldl (fun m s => max m s.seq) 0, cur := some s0.id } s0 hs0
+
+theorem foldl_maxSeq_max (l : List MSeg) (m a : Nat) :
+    l.foldl (fun m s => max m s.seq) (max m a) = max (l.foldl (fun m s => max m s.seq) m) a := by
+  induction l generalizing m with
+  | nil => rfl
+  | cons x xs ih =>
+    simp only [List.foldl_cons]
+    rw [show max (max m a) x.seq = max (max m x.seq) a by omega]
+    exact ih _
+
+theorem foldl_maxSeq_insertSeg (segs : List MSeg) (s : MSeg) (m : Nat) :
+    (insertSeg segs s).foldl (fun m s => max m s.seq) m =
+      max (segs.foldl (fun m s => max m s.seq) m) s.seq := by
+  induction segs generalizing m with
+  | nil => rfl
+  | cons x xs ih =>
+    simp only [insertSeg]; split
+    · simp only [List.foldl_cons]
+      rw [foldl_maxSeq_max, foldl_maxSeq_max, foldl_maxSeq_max]
+      omega
+    · simp only [List.foldl_cons]; exact ih _
+
+theorem find?_insertSeg_allFull (segs : List MSeg) (s : MSeg) (hs : s.full = false)
+    (hfull : ∀ x ∈ segs, x.full = true) : (insertSeg segs s).find? (fun x => !x.full) = some s := by
+  induction segs with
+  | nil => simp [insertSeg, hs]
+  | cons x xs ih =>
+    simp only [insertSeg]; split
+    · simp [List.find?_cons, hs]
+    · rw [List.find?_cons, hfull x List.mem_cons_self]
+      exact ih (fun y hy => hfull y (List.mem_cons_of_mem _ hy))
+
+/-- A clean reopen is idempotent, unconditionally (since fix F13: the reopen does not change any
+segment; if none is writable it appends a fresh one, which the second reopen finds). -/
+theorem reopenClean_idem' (st : MState) : st.reopenClean.reopenClean = st.reopenClean := by
+  cases hf : st.segs.find? (fun s => !s.full) with
+  | some s0 =>
+    have hm := List.mem_of_find?_eq_some hf
+    have hb := List.find?_some hf
+    exact reopenClean_idem st ⟨s0, hm, by simpa using hb⟩
+  | none =>
+    have hfull : ∀ x ∈ st.segs, x.full = true := by
+      intro x hx; have := List.find?_eq_none.1 hf x hx; simpa using this
+    have h1 : st.reopenClean =
+        { st with segs := insertSeg st.segs ⟨freeId st.segs (st.segs.length + 1) 0,
+                    st.segs.foldl (fun m s => max m s.seq) 0 + 1, [], false⟩,
+                  cur := some (freeId st.segs (st.segs.length + 1) 0),
+                  maxSeq := st.segs.foldl (fun m s => max m s.seq) 0 + 1 } := by
+      rw [reopenClean_eq]
+      unfold swapSegment
+      have : st.reopenPre.segs = st.segs := rfl
+      rw [this, hf]
+      rfl
+    rw [h1]
+    rw [reopenClean_of_find _ _ (find?_insertSeg_allFull st.segs _ rfl hfull)]
+    dsimp only
+    rw [foldl_maxSeq_insertSeg]
+    have : max (st.segs.foldl (fun m s => max m s.seq) 0) (st.segs.foldl (fun m s => max m s.seq) 0 + 1)
+        = st.segs.foldl (fun m s => max m s.seq) 0 + 1 := by omega
+    rw [this]
 
 /-! ### writeRecord -/
 
